@@ -14,6 +14,8 @@ typing_ref.templates()
 N = envint("VF_N", 2)
 BASE = envstr("VF_BASE", "h/a/x")           # concrete typed base Sid (string or uri)
 KEYS = ["p", "t", "n", "q", "version", "o", "ext", "zz", "sid"]
+if envstr("VF_KEYS", ""):
+    KEYS = envstr("VF_KEYS", "").split(",")
 KI = envint("VF_KI", 0)
 KI2 = envint("VF_KI2", 1)
 ENTRY = envstr("VF_ENTRY", "string")        # "string": Sid(base?query) ; "get_with": base.get_with(query=..)
@@ -119,7 +121,7 @@ def update_kernel(a: str, b: str, v: str, w: str) -> bool:
     pre: _val_ok(v) and _val_ok(w)
     post: _
     """
-    d = {KEYS[KI]: a, "n": b}
+    d = {KEYS[KI]: a, KEYS[2]: b}
     snap = dict(d)
     q = KEYS[KI] + "=" + v + "&" + KEYS[KI2] + "=" + w
     got = query_helper.update(d, q)
